@@ -519,7 +519,32 @@ func encodeMsg(m *robust.Message) []byte {
 		}
 		return append([]byte{'p'}, b...)
 	}
-	b, err := jsonMarshal(m)
+	// the JSON form as networks wrote it into their logs before protobuf (literal keys, not the current struct
+	// tags: an entry written by an older binary has to keep its meaning)
+	type id struct{ Id, Reply uint64 }
+	legacy := map[string]interface{}{
+		"Id":       id{m.Id.Id, m.Id.Reply},
+		"Session":  id{m.Session.Id, m.Session.Reply},
+		"Type":     int(m.Type),
+		"Data":     m.Data,
+		"UnixNano": m.UnixNano,
+	}
+	if len(m.Servers) > 0 {
+		legacy["Servers"] = m.Servers
+	}
+	if m.Currentmaster != "" {
+		legacy["Currentmaster"] = m.Currentmaster
+	}
+	if m.ClientMessageId != 0 {
+		legacy["ClientMessageId"] = m.ClientMessageId
+	}
+	if m.Revision != 0 {
+		legacy["Revision"] = m.Revision
+	}
+	if m.RemoteAddr != "" {
+		legacy["RemoteAddr"] = m.RemoteAddr
+	}
+	b, err := jsonMarshal(legacy)
 	if err != nil {
 		panic(err)
 	}
